@@ -23,6 +23,7 @@ type pollResult struct {
 	Counts  map[string]int
 	Other   []string
 	NonTriv bool
+	Waiting int // calls still blocked after the final 2 s settle time
 }
 
 // newRedis starts an in-process miniredis and the real Redis client on it
@@ -88,6 +89,11 @@ func pollCases(fl *hx.Flags, id *uint64) []Case {
 		*id++
 		res = append(res, Case{ID: *id, Kind: "poll", Fam: "poll", Ops: ops})
 	}
+	// a long wait: the back-off must stay bounded however long the call has been polling (after 4.3 s an
+	// unbounded doubling would sleep for more than 4 s; the write must still be seen within the 2 s bound)
+	*id++
+	res = append(res, Case{ID: *id, Kind: "poll", Fam: "polllong", Ops: []Step{{Op: "put", K: 0}, {Op: "start", K: 0, V: "cur"},
+		{Op: "sleep", W: 4300}, {Op: "put", K: 0}}})
 	return res
 }
 
@@ -237,6 +243,11 @@ func runPollCase(c Case) pollResult {
 				continue
 			}
 			op = wrote(o.K, r.Version)
+		case "sleep":
+			if o.W > 0 && o.W <= 10000 {
+				time.Sleep(time.Duration(o.W) * time.Millisecond)
+			}
+			continue
 		case "del":
 			if o.K >= nk {
 				continue
@@ -304,6 +315,7 @@ func runPollCase(c Case) pollResult {
 	}
 	res.Coq = fmt.Sprintf("CasePoll %s %s %s", hx.N(c.ID), hx.List(ss), hx.List(waiting))
 	res.NonTriv = len(steps) >= 3 && len(waiters) >= 1
+	res.Waiting = len(waiting)
 	return res
 }
 
@@ -321,6 +333,12 @@ func runPollCases(cases []Case) map[uint64]pollResult {
 		go func(c Case) {
 			defer wg.Done()
 			r := runPollCase(c)
+			if c.Fam == "polllong" {
+				// the promptness bound must be exceeded three times in a row before it is reported
+				for i := 0; i < 2 && r.Waiting > 0; i++ {
+					r = runPollCase(c)
+				}
+			}
 			<-sem
 			mu.Lock()
 			res[c.ID] = r
